@@ -726,7 +726,7 @@ func TestCheck(t *testing.T) {
 		}
 	}
 	// base sets are drawn with rapid (same seed in every shard, so all shards see the same bases and split the states)
-	nb := cfg.N(3, 12)
+	nb := cfg.N(5, 14)
 	flag := 0
 	cfgAll := *cfg
 	cfgAll.Shard = 0
